@@ -13,6 +13,7 @@ The search is written exactly as the code does it: five loops, an explicit `adde
 `goto WRAP` as a recursive call; every loop carries a fuel argument.  Core Lean only.
 -/
 import KitModel.CronCal
+import KitModel.Generated.C04Next
 
 namespace Kit.CronSpec
 open Kit.CronCal
@@ -32,8 +33,8 @@ structure Sched where
 /-- `1<<uint(v) & set != 0` for a field value `v` (always in `0..31` here). -/
 def has (set : Nat) (v : Int) : Bool := set.testBit v.toNat
 
-/-- `set & starBit > 0`. -/
-def star (set : Nat) : Bool := set.testBit 63
+/-- `set & starBit > 0` (`starBit` is regenerated from spec.go on every check). -/
+def star (set : Nat) : Bool := set.testBit Generated.C04Next.starBit
 
 /-! ### time zones -/
 
@@ -214,7 +215,7 @@ def outerFuel : Nat := 200000000
 /-- `SpecSchedule.Next` on a nanosecond instant `tn`; the answer is in Unix seconds. -/
 def next (s : Sched) (z : Zone) (tn : Int) : Result :=
   let t := roundUp tn
-  nextFrom s z (year z t + 5) outerFuel t false
+  nextFrom s z (year z t + Generated.C04Next.yearLimitAdd) outerFuel t false
 
 /-! ### specification: what "matches on the wall clock" means (cron/doc.go)
 
